@@ -1,3 +1,109 @@
 package main
 
-func cmdSelftestDeterminism(args []string) int { return 2 }
+import (
+	"encoding/json"
+	"flag"
+	"fmt"
+	"io/ioutil"
+	"os"
+	"os/exec"
+	"path/filepath"
+	"sort"
+	"sync"
+)
+
+// cmdSelftestDeterminism runs the same seeds of every scenario family in
+// several configurations (1 process with GOMAXPROCS=1, the same again, 4
+// processes with GOMAXPROCS=4, 16 processes with GOMAXPROCS=16) and compares
+// a hash of the complete outcome of every execution, scenario by scenario.
+func cmdSelftestDeterminism(args []string) int {
+	fs := flag.NewFlagSet("selftest-determinism", flag.ExitOnError)
+	count := fs.Int("count", 600, "scenarios per property")
+	fs.Parse(args)
+	ws, err := prepare(false, false)
+	defer ws.Cleanup()
+	if err != nil {
+		fmt.Fprintln(os.Stderr, "simcheck:", err)
+		return 2
+	}
+	props := make([]string, 0, len(budgets))
+	for p := range budgets {
+		props = append(props, p)
+	}
+	sort.Strings(props)
+	type cfg struct {
+		name     string
+		workers  int
+		maxprocs string
+	}
+	cfgs := []cfg{{"1x1", 1, "1"}, {"1x1-again", 1, "1"}, {"4x4", 4, "4"}, {"16x16", 16, "16"}}
+	bad := 0
+	procs := 0
+	for _, seed := range []uint64{1, 7} {
+		for _, prop := range props {
+			results := make([]map[string]string, len(cfgs))
+			for ci, c := range cfgs {
+				merged := map[string]string{}
+				var mu sync.Mutex
+				var wg sync.WaitGroup
+				var firstErr error
+				for w := 0; w < c.workers; w++ {
+					wg.Add(1)
+					procs++
+					go func(w int) {
+						defer wg.Done()
+						out := filepath.Join(ws.Dir, fmt.Sprintf("h-%s-%d-%d.json", prop, ci, w))
+						cmd := exec.Command(ws.Exec, "run", "--prop", prop, "--seed", fmt.Sprint(seed), "--worker", fmt.Sprint(w), "--workers", fmt.Sprint(c.workers),
+							"--count", fmt.Sprint(*count), "--out", os.DevNull, "--hashes", out, "--replays", filepath.Join(ws.Dir, "replays"))
+						cmd.Env = append(os.Environ(), "GOMAXPROCS="+c.maxprocs)
+						if o, err := cmd.CombinedOutput(); err != nil {
+							mu.Lock()
+							firstErr = fmt.Errorf("%v: %s", err, clipStr(string(o), 1000))
+							mu.Unlock()
+							return
+						}
+						b, err := ioutil.ReadFile(out)
+						m := map[string]string{}
+						if err == nil {
+							err = json.Unmarshal(b, &m)
+						}
+						mu.Lock()
+						if err != nil {
+							firstErr = err
+						}
+						for k, v := range m {
+							merged[k] = v
+						}
+						mu.Unlock()
+					}(w)
+				}
+				wg.Wait()
+				if firstErr != nil {
+					fmt.Fprintln(os.Stderr, "simcheck: selftest trouble:", firstErr)
+					return 2
+				}
+				results[ci] = merged
+			}
+			diff := 0
+			for k, h := range results[0] {
+				for ci := 1; ci < len(cfgs); ci++ {
+					if results[ci][k] != h {
+						diff++
+						if diff <= 5 {
+							fmt.Printf("NONDETERMINISM property=%s seed=%d index=%s: %s=%s %s=%s\n", prop, seed, k, cfgs[0].name, h, cfgs[ci].name, results[ci][k])
+						}
+					}
+				}
+			}
+			fmt.Printf("selftest-determinism: %s seed=%d: %d scenarios x %d configurations, %d differing\n", prop, seed, len(results[0]), len(cfgs), diff)
+			if diff > 0 || len(results[0]) == 0 {
+				bad++
+			}
+		}
+	}
+	fmt.Printf("selftest-determinism: %d OS processes in total\n", procs)
+	if bad > 0 {
+		return 2
+	}
+	return 0
+}
